@@ -3,17 +3,23 @@
 
    Header values are sequences over the delimiter alphabet
         ","  ";"  "="  "q" (double quote)  "b" (backslash)  "k" (key letter)  "v" (value character)
-   and the grammar (Envoy XFCC) is defined on the characters themselves, by a left-to-right scanner:
+   plus the percent-escapes of the delimiters as single symbols
+        "E," = %2C   "E;" = %3B   "E=" = %3D   "Eq" = %22   "Eb" = %5C        (upper or lower case hex)
+   which are ORDINARY VALUE CHARACTERS: a percent-escape never separates elements or pairs, never opens or closes a
+   quoted value and never escapes anything, in whatever field it occurs (Cert/URI/By are URL-decoded only after the
+   header has been split).  The grammar (Envoy XFCC) is defined on the characters themselves, by a left-to-right scanner:
 
         header  ::= element ("," element)*            element ::= pair (";" pair)*
         pair    ::= key "=" value                     key     ::= "k"+
-        value   ::= unquoted | quoted                 unquoted::= ("k" | "v" | "=")*
-        quoted  ::= q ( "k" | "v" | "=" | "," | ";" | b ANY )* q          (b ANY: an escaped character)
+        value   ::= unquoted | quoted                 unquoted::= ("k" | "v" | "=" | ESC)*
+        quoted  ::= q ( "k" | "v" | "=" | "," | ";" | ESC | b ANY )* q    (b ANY: an escaped character)
 
    A value is reported as a sequence of tokens: a letter at position i is the token ToString(i) (so every letter of
    the header has its own identity and "which element did this come from" is decidable), a delimiter is itself, the
    enclosing quotes and every escaping backslash are removed (an escaped backslash contributes nothing: values
    are compared modulo backslashes because the statement does not define unescaping beyond the escaped quote).
+   A percent-escape is reported as the delimiter it encodes (values are compared modulo URL-decoding, which the
+   statement does not assign to particular fields); %5C, an encoded backslash, contributes nothing.
 
    Only grammar-valid headers are compared field by field ("never split or merge"); every other string must merely
    never raise anything but AuthFailure (decided by the driver as a harness-level fact).                         *)
@@ -26,7 +32,10 @@ CONSTANTS MaxLen,         \* every string over Alphabet up to this length is a c
           FamilyDepth     \* 0: no structured family; 1: one/two elements; 2: also three elements
 
 Letter(ch) == ch \in {"k", "v"}
-Tok(ch, i) == IF Letter(ch) THEN ToString(i) ELSE ch
+Esc == {"E,", "E;", "E=", "Eq", "Eb"}
+EscTok(ch) == CASE ch = "E," -> "," [] ch = "E;" -> ";" [] ch = "E=" -> "=" [] ch = "Eq" -> "q" [] OTHER -> "b"
+Tok(ch, i) == IF Letter(ch) THEN ToString(i) ELSE IF ch \in Esc THEN EscTok(ch) ELSE ch
+Add(val, ch, i) == IF ch = "Eb" THEN val ELSE Append(val, Tok(ch, i))      \* value after one more ordinary character
 
 \* ------------------------------------------------------------------ the scanner
 St0 == [ok |-> TRUE, mode |-> "key0", elems |-> <<>>, pairs |-> <<>>, kpos |-> 0, klen |-> 0, val |-> <<>>]
@@ -41,18 +50,18 @@ Step(st, ch, i) ==
                            ELSE IF ch = "=" THEN [st EXCEPT !.mode = "val0", !.val = <<>>]
                            ELSE Fail(st)
     [] st.mode = "val0" -> IF ch = "q" THEN [st EXCEPT !.mode = "qval"]
-                           ELSE IF ch \in {"k", "v", "="} THEN [st EXCEPT !.mode = "uval", !.val = <<Tok(ch, i)>>]
+                           ELSE IF ch \in {"k", "v", "="} \cup Esc THEN [st EXCEPT !.mode = "uval", !.val = Add(<<>>, ch, i)]
                            ELSE IF ch = ";" THEN ClosePair(st)
                            ELSE IF ch = "," THEN CloseElem(st)
                            ELSE Fail(st)                                         \* backslash outside quotes
-    [] st.mode = "uval" -> IF ch \in {"k", "v", "="} THEN [st EXCEPT !.val = Append(@, Tok(ch, i))]
+    [] st.mode = "uval" -> IF ch \in {"k", "v", "="} \cup Esc THEN [st EXCEPT !.val = Add(@, ch, i)]
                            ELSE IF ch = ";" THEN ClosePair(st)
                            ELSE IF ch = "," THEN CloseElem(st)
                            ELSE Fail(st)                                         \* quote / backslash inside an unquoted value
     [] st.mode = "qval" -> IF ch = "q" THEN [st EXCEPT !.mode = "qend"]
                            ELSE IF ch = "b" THEN [st EXCEPT !.mode = "qesc"]
-                           ELSE [st EXCEPT !.val = Append(@, Tok(ch, i))]        \* "," ";" "=" are ordinary characters here
-    [] st.mode = "qesc" -> [st EXCEPT !.mode = "qval", !.val = IF ch = "b" THEN @ ELSE Append(@, Tok(ch, i))]
+                           ELSE [st EXCEPT !.val = Add(@, ch, i)]                \* "," ";" "=" and escapes are ordinary here
+    [] st.mode = "qesc" -> [st EXCEPT !.mode = "qval", !.val = IF ch = "b" THEN @ ELSE Add(@, ch, i)]
     [] st.mode = "qend" -> IF ch = ";" THEN ClosePair(st)
                            ELSE IF ch = "," THEN CloseElem(st)
                            ELSE Fail(st)                                         \* junk after the closing quote
@@ -77,7 +86,12 @@ ValsA == { <<"v">>, <<"v", "=", "v">>, <<"q", "q">>, <<"q", "v", "q">>,
            <<"q", "v", "b", "q", ",", "k", "=", "v", "q">>,  \* "v\",k=v"   escaped quote then a fake element
            <<"q", "v", "b", "b", "q">>,                      \* "v\\"       escaped backslash right before the closing quote
            <<"q", "b", "q", "q">>,                           \* "\""
-           <<"q", "k", "=", "v", ",", "k", "=", "v", "q">> } \* "k=v,k=v"   a DN-like value
+           <<"q", "k", "=", "v", ",", "k", "=", "v", "q">>,  \* "k=v,k=v"   a DN-like value
+           \* percent-escaped delimiters inside a value (an attacker-chosen URI SAN / DN): never live delimiters
+           <<"v", "E;", "k", "E=", "Eq", "k", "E=", "v", "Eq">>,   \* v%3Bk%3D%22k%3Dv%22   would inject a pair  k="k=v"
+           <<"v", "E,", "k", "E=", "v">>,                          \* v%2Ck%3Dv             would inject an element
+           <<"q", "v", "Eq", "E,", "k", "E=", "v", "q">>,          \* "v%22%2Ck%3Dv"        would close the quote early
+           <<"q", "v", "Eb", "q">> }                               \* "v%5C"                would escape the closing quote
 ValsB == { <<"v">>, <<"q", "v", ",", "v", "q">>, <<"q", "b", "q", ";", "v", "q">>, <<>> }
 PairOf(v) == <<"k", "=">> \o v
 E1 == {PairOf(v) : v \in ValsA}
@@ -130,7 +144,7 @@ NonEmptyElems(c) == c.k = "str" => LET P == Parse(c.s)  es == P.elems IN
 QuotesOnlyEscaped(c) == c.k = "str" => LET P == Parse(c.s)  es == P.elems IN P.ok =>
     \A j \in 1..Len(es) : \A p \in 1..Len(es[j]) :
         Cardinality({x \in 1..Len(es[j][p].val) : es[j][p].val[x] = "q"})
-          <= Cardinality({i \in 1..Len(c.s) : c.s[i] = "q" /\ QState(c.s, i) = "esc"})
+          <= Cardinality({i \in 1..Len(c.s) : (c.s[i] = "q" /\ QState(c.s, i) = "esc") \/ c.s[i] = "Eq"})
 
 \* ------------------------------------------------------------------ judging what the real code did
 (* observation o (one per concrete header value):  [names, first, last]; first/last = [vout, el, dout, df] observed
